@@ -393,6 +393,12 @@ def inject(doc, kind, loc, seed):
                 and sg.vals[qi][0] in other and sg.vals[di][0]]
         if seen and r.random() < .7:
             v = r.choice(seen)
+        impossible = {'D8': ['20040230', '20041301', '20040100'], 'RD8': ['20040101-20040230', '20041301-20050101', '20040131-20040132'],
+                      'DT': ['200401012460', '200401011260', '200402301200', '200413011200', '200401019999'],
+                      'TM': ['2460', '1260', '9999'], 'D6': ['040230', '041301']}.get(cur)
+        if impossible and r.random() < .35:
+            # ... or a value of the DECLARED format that names no date or time (for CCYYMMDDHHMM: in the date or in the time part)
+            v = r.choice(impossible)
         n = s.node.children[di]
         if not (n.minl <= len(v) <= n.maxl):
             return None
